@@ -335,6 +335,25 @@ def run(run):
                              sample={'framing': framing, 'direction': d, 'original': frame.hex(), 'corruption': list(label), 'fed': [c.hex() if isinstance(c, bytes) else c for c in chunks],
                                      'verdict': 'no unjustified delivery' if ok else 'unjustified delivery'},
                              sample_class=(framing, label[0]))
+    # every byte value at one position of a fixed frame, each with every single-bit flip of that byte: whatever a table-driven checksum
+    # does with a byte, it is exercised for all 256 of them (a wrong table entry accepts one of these flips)
+    if run.shard in (None, 0):
+        for framing in ('rtu', 'binary', 'ascii'):
+            for pos_field in ('address', 'count'):
+                for v in range(256):
+                    m = {'dir': REQ, 'fc': 3, 'address': 0x1200 | v if pos_field == 'address' else 0x0102, 'count': 1 + (v if pos_field == 'count' else 0) % 125}
+                    frame = ADU.build(framing, 17, S.encode(m))
+                    if framing == 'binary' and any(b in (0x7B, 0x7D) for b in frame[1:-1]):
+                        continue
+                    body_start = {'rtu': 0, 'binary': 1, 'ascii': 1}[framing]
+                    span = range(8 * body_start, 8 * (len(frame) - (2 if framing == 'rtu' else 3 if framing == 'binary' else 4)))
+                    for bit in span:
+                        b = bytearray(frame)
+                        b[bit // 8] ^= 1 << (bit % 8)
+                        case = {'framing': framing, 'dir': REQ, 'chunks': [bytes(b)], 'context': [], 'corruption': ['table-sweep', v, bit], 'original': frame}
+                        ok = check(run, case)
+                        run.count('kind:table-sweep')
+                        run.case(h64((framing, 'table-sweep', pos_field, v, bit)), True, sample=None)
     run.floor('corruptions per framing (min)', min(run.counters.get('corruptions:%s' % f, 0) for f in FRAMINGS), 5000 if run.shard is None else 300)
     run.floor('deliveries judged', run.counters.get('justification_checks', 0), 2000 if run.shard is None else 100)
     run.floor('single-bit flips', run.counters.get('kind:flip1', 0), 2000 if run.shard is None else 100)
